@@ -259,8 +259,18 @@ func vhC04(rules Rules) {
 }
 
 // vhC07Run: whole-run obligations from the initial state.
-func vhC07Run(rules Rules) {
-	in := vhInput()
+func vhC07Run(rules Rules) { vhC07RunIn(rules, vhInput()) }
+
+func VH_C07_Run_Generated() {
+	rules, in, ok := vhGenPick()
+	if !ok {
+		vReach("rejected")
+		return
+	}
+	vhC07RunIn(rules, in)
+}
+
+func vhC07RunIn(rules Rules, in string) {
 	def, derr := New(rules)
 	vAssert(derr == nil, "catalogue definition must be accepted by New")
 	lex, _ := def.LexString("f", in)
@@ -378,6 +388,39 @@ func VH_C03_ReturnSelf()   { vhC03(vhDefReturnSelf()) }
 func VH_C03_ElidedActions() { vhC03(vhDefElidedActions()) }
 
 func VH_C03_NullableStar() { vhC03(vhDefNullableStar()) }
+
+// generated definitions (zz_verif_lexgen.go)
+const vhGenLexDefs = 100 // @tier quick=100 thorough=400
+
+func vhGenPick() (Rules, string, bool) {
+	idx := vChoose("definition", vhGenLexDefs)
+	rules := vhGenRules(idx, false)
+	if _, err := New(rules); err != nil {
+		return nil, "", false
+	}
+	other := false
+	for _, rs := range rules {
+		for _, r := range rs {
+			if len(r.Name) > 2 && r.Name[1] == 'o' {
+				other = true
+			}
+		}
+	}
+	if other {
+		// captured text is spliced into patterns: ASCII only
+		return rules, vhInputASCII(), true
+	}
+	return rules, vhInput(), true
+}
+
+func VH_C03_Generated() {
+	rules, in, ok := vhGenPick()
+	if !ok {
+		vReach("rejected")
+		return
+	}
+	vhC03In(rules, in)
+}
 
 func VH_C03_Canary() {
 	in := vhInput()
